@@ -90,6 +90,11 @@ def build_type_dict_from_type(t: Type, at_class: Optional[Type] = None) -> Dict[
     generic_type = get_origin(t)
     if generic_type is None:
         if at_class is not None:
+            # A concrete subclass of a generic class (`class IntList(MyList[int])`) - the
+            # parameters are found on the class it inherits from.
+            inherited = get_inherited(t)
+            if inherited is not Any:
+                return build_type_dict_from_type(inherited, at_class)
             raise TypeError(f"Could not find type {str(at_class)} in {str(t)}")
         return {}
 
